@@ -8,7 +8,8 @@ oids are assigned in order of first visit of a deterministic traversal.
 Kinds (which copy algorithm `copy.deepcopy` dispatches to for the object; decided from the class,
 fail closed on anything unknown):
   atomic     __deepcopy__ returns self (StateAlphabet, StateIdentity): opaque, body not followed
-  list dict set tuple     builtin containers (tuples have no identity: one entry per occurrence)
+  list dict set tuple     builtin containers (a tuple that copy.deepcopy hands back unchanged is shown as
+                          the copy's own object: one entry per tuple and side)
   plain      object with __dict__ and the default __reduce_ex__ copy (Bipartition)
   annotable  basemodel.Annotable.__deepcopy__ (Tree, Node, Edge, TreeList, CharacterMatrix, ...)
   annset     basemodel.AnnotationSet.__deepcopy__
@@ -143,6 +144,7 @@ class Dumper:
             self.prims[("str", repr(name))] = 3 + n
         self.next_other = OTHER_BASE
         self.tuple_holders = {}
+        self.n0 = None       # number of source objects (set after the first dump)
 
     def prim(self, v):
         if isinstance(v, (types.FunctionType, types.BuiltinFunctionType, types.MethodType)):
@@ -185,9 +187,12 @@ class Dumper:
             if is_prim(y):
                 return ["P", self.prim(y)]
             if type(y) is tuple:
-                # tuples have no identity in the model: one entry per occurrence (owner, slot)
-                key = (cur[0], cur[1], id(y))
-                cur[1] += 1
+                # A tuple is an object with identity (copy.deepcopy memoises it), except that deepcopy
+                # hands back the very same tuple when none of its elements changed (all atomic, or
+                # memo-seeded): such a tuple reached from the copy is shown as the copy's own object.
+                # Holder key: (the tuple, side of the referring object: 0 source / 1 copy).
+                side = 0 if (self.n0 is None or cur[0] < self.n0) else 1
+                key = (id(y), side)
                 holder = self.tuple_holders.get(key)
                 if holder is None:
                     holder = self.tuple_holders[key] = ["tuple-occurrence", y]
@@ -212,10 +217,7 @@ class Dumper:
                 continue
             k = kind_of(x)
             body = []
-            # (two objects sharing ONE __dict__ - the copy constructors make such pairs - hold the very
-            # same tuple in the same slot: one occurrence)
-            d0 = getattr(x, "__dict__", None)
-            cur[0], cur[1] = (("dict", id(d0)) if type(d0) is dict and k not in ("list", "dict", "set", "tuple", "cdict") else i), 0
+            cur[0], cur[1] = i, 0
             cls = type(x).__name__
             if k == "atomic":
                 pass
